@@ -1,7 +1,7 @@
 (* Props_C12.v — property C12: ONLY theorem statements, each closed by [exact] of a lemma of
    C12_Proofs*, followed by Print Assumptions.  assoc_step / links / find_ids / run are the functions
    C12_Check.check_case evaluates against real gorm on every run. *)
-From Verif Require Import Base C12_Model C12_Proofs C12_Proofs2 C12_Proofs3 C12_Proofs4.
+From Verif Require Import Base C12_Model C12_Proofs C12_Proofs2 C12_Proofs3 C12_Proofs4 C12_Proofs5 C12_Proofs6.
 Open Scope Z_scope.
 
 (* has one / has many / polymorphic has many, struct handle or slice handle of any size, scoped or
@@ -51,6 +51,64 @@ Theorem c12_has_targets_survive : forall k os, is_has k -> forall ops s,
 Proof. exact has_targets_survive. Qed.
 Print Assumptions c12_has_targets_survive.
 
+(* many2many (struct or slice handle, scoped or Unscoped): one operation ... *)
+Theorem c12_m2m_step : forall os u o s, wf_m2m os s -> op_ok_m2m os s o ->
+  let s' := assoc_step KM2M os s (u, o) in
+  wf_m2m os s' /\
+  (forall i ow, nth_error os i = Some ow ->
+     seteq (links KM2M s' ow) (spec_owner KM2M o (links KM2M s ow) (values_of os o i))) /\
+  (forall x, In x (tgt s) -> In x (tgt s')).
+Proof. exact m2m_step. Qed.
+Print Assumptions c12_m2m_step.
+
+(* ... and any history: join rows = what the sequence defines.  op_ok_m2m is `lengths match` plus,
+   for Replace on a slice handle, the side condition that c12_refuted_m2m_slice_replace shows to be
+   necessary on the current tree (it is vacuous for db.Model(&owner)). *)
+Theorem c12_m2m_links : forall os ops s A,
+  wf_m2m os s -> hist_ok_g KM2M os (op_ok_m2m os) s ops -> length A = length os ->
+  (forall i o, nth_error os i = Some o -> seteq (links KM2M s o) (nth i A [])) ->
+  let s' := final KM2M os s ops in
+  wf_m2m os s' /\ (forall i o, nth_error os i = Some o -> seteq (links KM2M s' o) (nth i (spec_run KM2M ops A) [])).
+Proof. exact m2m_history. Qed.
+Print Assumptions c12_m2m_links.
+
+Theorem c12_m2m_targets_survive : forall os ops s,
+  wf_m2m os s -> hist_ok_g KM2M os (op_ok_m2m os) s ops ->
+  forall x, In x (tgt s) -> In x (tgt (final KM2M os s ops)).
+Proof. exact m2m_targets_survive. Qed.
+Print Assumptions c12_m2m_targets_survive.
+
+Theorem c12_m2m_count_find : forall os s, wf_m2m os s ->
+  find_ids KM2M os s = List.concat (map (links KM2M s) os) /\
+  count_ids KM2M os s = Z.of_nat (length (List.concat (map (links KM2M s) os))).
+Proof. exact m2m_find. Qed.
+Print Assumptions c12_m2m_count_find.
+
+(* belongs to: the owners' foreign keys after any history, scoped or Unscoped, are those the
+   sequence defines (a one-slot relation: Append = Replace = :=) *)
+Theorem c12_belongs_links : forall os ops s A,
+  wf_bt os s -> hist_ok_g KBelongs os (op_ok_bt os) s ops -> length A = length os ->
+  (forall i o, nth_error os i = Some o -> seteq (links KBelongs s o) (nth i A [])) ->
+  let s' := final KBelongs os s ops in
+  wf_bt os s' /\ (forall i o, nth_error os i = Some o -> seteq (links KBelongs s' o) (nth i (spec_run KBelongs ops A) [])).
+Proof. exact bt_history. Qed.
+Print Assumptions c12_belongs_links.
+
+(* belongs to, histories WITHOUT Unscoped: records survive and every foreign key keeps pointing at
+   a record (the Unscoped half is false: the c12_refuted_belongs_unscoped theorems) *)
+Theorem c12_belongs_scoped_partial : forall os ops s,
+  wf_bt os s -> hist_ok_g KBelongs os (op_ok_bt os) s ops -> Forall (fun uo => fst uo = false) ops ->
+  tgt_ok os s ->
+  (forall x, In x (tgt s) -> In x (tgt (final KBelongs os s ops))) /\ tgt_ok os (final KBelongs os s ops).
+Proof. exact bt_scoped_targets. Qed.
+Print Assumptions c12_belongs_scoped_partial.
+
+Theorem c12_belongs_count_find : forall os s, wf_bt os s -> tgt_ok os s ->
+  NoDup (find_ids KBelongs os s) /\
+  (forall t, In t (find_ids KBelongs os s) <-> exists o, In o os /\ LB s o t).
+Proof. exact bt_find. Qed.
+Print Assumptions c12_belongs_count_find.
+
 (* where the code departs from the property (each reproduced on real gorm, corpus/C12) *)
 Theorem c12_refuted_belongs_unscoped_replace :
   let s := final KBelongs [1] bt_init [(false, OAppend [[11]]); (true, OReplace [[12]])] in
@@ -83,3 +141,7 @@ Theorem c12_refuted_steal :
   links KHasMany s 1 = [] /\ nth 0 (mem s) [] = [11] /\ spec_run KHasMany ops [[]; []] = [[11]; [11]].
 Proof. exact refuted_steal. Qed.
 Print Assumptions c12_refuted_steal.
+
+(* non-vacuity: a well-formed state and an admissible history (Append, Unscoped Delete, Replace, Clear) *)
+Example c12_has_instance : wf_has [1] ex_init /\ hist_ok KHasMany [1] ex_init ex_ops.
+Proof. exact has_instance. Qed.
